@@ -86,7 +86,10 @@ func (c *ChoquetIntegralBiasListener) Merge(params model.MethodParameters, addit
 	oldParams := params.(choquetParams)
 	newParams := addition.(choquetParams)
 	resultWeights := oldParams.weights.Merge(newParams.weights)
-	resultCriteria := append(*oldParams.criteria, *newParams.criteria...)
+	// the old criteria may be the list of the request itself: never append to it, it may have spare capacity
+	resultCriteria := make(model.Criteria, 0, len(*oldParams.criteria)+len(*newParams.criteria))
+	resultCriteria = append(resultCriteria, *oldParams.criteria...)
+	resultCriteria = append(resultCriteria, *newParams.criteria...)
 	completeWeights(resultWeights, &resultCriteria, newParams.criteria)
 	return choquetParams{weights: resultWeights, criteria: &resultCriteria}
 }
